@@ -88,6 +88,7 @@ type proxyCfg struct {
 	BackendLogout         bool
 	SkipClaimsFromProfile bool
 	CookieMinimal         bool
+	ProviderType          string // "" = oidc; "keycloak-oidc"
 }
 
 type testEnv struct {
@@ -217,6 +218,9 @@ func newEnv(c *suiteCtx, cfg proxyCfg) (*testEnv, error) {
 	pr := &o.Providers[0]
 	pr.ID = "verif"
 	pr.Type = options.OIDCProvider
+	if cfg.ProviderType != "" {
+		pr.Type = options.ProviderType(cfg.ProviderType)
+	}
 	pr.ClientID = tClientID
 	pr.ClientSecret = tClientSecret
 	pr.OIDCConfig.IssuerURL = e.idp.url()
